@@ -188,7 +188,8 @@ _MSG = ['empty', 'one', 'multi', 'nonstr', 'two_args', 'colon', 'unicode', 'none
 def strat_b(tier):
     return st.fixed_dictionaries({
         'sub': st.just('b'),
-        'chain': st.lists(st.tuples(st.sampled_from(_STYLES), st.integers(1, 6)).map(list), min_size=0, max_size=11),
+        'chain': st.lists(st.tuples(st.sampled_from(_STYLES), st.one_of(st.integers(1, 6), st.integers(1, 6), st.sampled_from([990, 1100, 1500]))).map(list),
+                          min_size=0, max_size=11),
         'exc': st.sampled_from(_EXC),
         'msg': st.sampled_from(_MSG),
     })
@@ -292,6 +293,10 @@ def run_b(case):
     path = os.path.join(_tmpdir(), name + '.py')
     with open(path, 'w', encoding='utf-8') as f:
         f.write(src)
+    deep = sum(r for s_, r in case['chain'] if s_ == 'recursive' and r > 100)
+    old_limit = sys.getrecursionlimit()
+    if deep:
+        sys.setrecursionlimit(max(old_limit, deep + 2000))
     spec = importlib.util.spec_from_file_location(name, path)
     mod = importlib.util.module_from_spec(spec)
     sys.modules[name] = mod
@@ -365,6 +370,8 @@ def run_b(case):
             out.label('frame_without_source')
         if 'Previous line repeated' in std_text:
             out.label('interpreter_collapses_repeats')
+        if depth > 1000:
+            out.label('more_than_1000_frames')
         if case['exc'] == 'Local':
             out.label('function_local_class')
         if case['msg'] == 'empty':
@@ -372,6 +379,7 @@ def run_b(case):
         out.label('depth>=3' if depth >= 3 else 'depth<3')
         return out
     finally:
+        sys.setrecursionlimit(old_limit)
         sys.modules.pop(name, None)
         linecache.checkcache(path)
         try:
